@@ -42,8 +42,10 @@ def design_cfg(c, invs):
     return 'SPECIFICATION Spec\n' + c + ''.join('INVARIANT %s\n' % i for i in invs) + 'CHECK_DEADLOCK FALSE\n'
 
 
-def gen(c, simulate=None, seed=0, depth=20, timeout=600):
-    cfg = 'SPECIFICATION GSpec\n' + c + 'CONSTANTS MaxOdd = 0\nCONSTRAINT Emit\nCHECK_DEADLOCK FALSE\n'
+def gen(c, simulate=None, seed=0, depth=20, timeout=600, start_hosts=('h1',), refs=('none', 'http', 'https')):
+    q = lambda xs: '{' + ', '.join('"%s"' % x for x in xs) + '}'
+    cfg = ('SPECIFICATION GSpec\n' + c + 'CONSTANTS MaxOdd = 0 StartHosts = %s Refs = %s SimMode = %s\nCONSTRAINT Emit\n'
+           'CHECK_DEADLOCK FALSE\n' % (q(start_hosts), q(refs), 'TRUE' if simulate else 'FALSE'))
     res = tlc.run_tlc('WebSessionGen', cfg, workers=1 if simulate else 4, simulate=simulate, depth=depth,
                       seed=seed, timeout=timeout, heap='3g')
     if not simulate:
@@ -84,8 +86,11 @@ def to_script(g, maxred, rel, proxy):
 
 
 def expected(u):
+    absolutes = ['%s://%s%s' % (u['scheme'], X.authority(u), X.target_of(u))]
+    if u.get('creds'):
+        absolutes.append('%s://%s:%s@%s%s' % ((u['scheme'],) + X.creds_of(u['host']) + (X.authority(u), X.target_of(u))))
     return {'host': u['host'], 'scheme': u['scheme'], 'port': u['port'], 'targets': [X.target_of(u)],
-            'authority': X.authority(u), 'absolute': '%s://%s%s' % (u['scheme'], X.authority(u), X.target_of(u))}
+            'authority': X.authority(u), 'absolutes': absolutes}
 
 
 def ahost(value):
@@ -132,17 +137,31 @@ def trace_of(sc, ev):
 MON_CFG = 'SPECIFICATION MSpec\nCONSTRAINT Record\nPOSTCONDITION Post\nCHECK_DEADLOCK FALSE\n'
 
 
+MON_KEYS = {'send': ('e', 'at', 'exp', 'target', 'method', 'hosts', 'auth', 'cookies', 'referer', 'nreferer', 'wf', 'proxied'),
+            'recv': ('e', 'status', 'loc'), 'outcome': ('e', 'v')}
+STRICT_KEYS = {'send': ('e', 'curl', 'ahosts', 'auth', 'cookies', 'referer'),
+               'recv': ('e', 'status', 'loc', 'locurl', 'setcookie'), 'outcome': ('e', 'v')}
+
+
+def slim(t, keys, top):
+    d = {k: t[k] for k in top if k in t}
+    d['ev'] = [{k: e[k] for k in keys[e['e']] if k in e} for e in t['ev']]
+    return d
+
+
 def validate(traces, strict=True):
+    mon_traces = [slim(t, MON_KEYS, ('maxred',)) for t in traces]
+    strict_traces = [slim(t, STRICT_KEYS, ('start', 'referer', 'login', 'jar0', 'maxred')) for t in traces] if strict else []
     str_cfg = ('SPECIFICATION TSpec\n' + consts(['h1', 'h2', 'h3'], ['a'], ['http', 'https'], ['def', 'alt'], 99, 99, FIX_COPY)
                + 'CONSTRAINT Record\nPOSTCONDITION Post\nCHECK_DEADLOCK FALSE\n')
-    chunks = [(i, min(i + 3000, len(traces))) for i in range(0, len(traces), 3000)]
+    chunks = [(i, min(i + 1500, len(traces))) for i in range(0, len(traces), 1500)]
 
     def job(a):
         kind, (lo, hi) = a
         if kind == 'mon':
-            return tlc.validate_batch('WebSessionMon', MON_CFG, traces[lo:hi])
+            return tlc.validate_batch('WebSessionMon', MON_CFG, mon_traces[lo:hi])
         # the strict spec takes MaxRed from the constants: group by maxred
-        part = traces[lo:hi]
+        part = strict_traces[lo:hi]
         verd = [None] * len(part)
         stats = {'states': 0, 'distinct': 0, 'wall_s': 0.0, 'runs': 0}
         for mr in sorted(set(t['maxred'] for t in part)):
@@ -156,7 +175,7 @@ def validate(traces, strict=True):
         return verd, stats
 
     jobs = [('mon', c) for c in chunks] + ([('strict', c) for c in chunks] if strict else [])
-    with ThreadPoolExecutor(max_workers=6) as ex:
+    with ThreadPoolExecutor(max_workers=8) as ex:
         results = list(ex.map(job, jobs))
     mv, sv, stats = [], [], []
     for (kind, _), (v, st) in zip(jobs, results):
@@ -169,8 +188,10 @@ def clauses_of(mask):
     return [CLAUSES[k] for k in sorted(CLAUSES) if (mask >> (k - 1)) & 1]
 
 
-def bad_send(t, line):
-    """The send event at (1-based) trace line `line` - the state after consuming event line-1."""
+def bad_send(t, lines, k):
+    """The send event at which clause k was first violated (lines: 4 bits per clause; a line is the 1-based
+    trace position of the state after consuming event line-1)."""
+    line = (lines >> (4 * (k - 1))) & 15 if k <= 7 else 0
     i = line - 2
     if 0 <= i < len(t['ev']) and t['ev'][i]['e'] == 'send':
         return i, t['ev'][i]
@@ -187,49 +208,58 @@ def how_made(t, i):
 
 
 def run(chk):
+    import time
     quick = chk.tier == 'quick'
     rng = random.Random(chk.seed)
+    tm = {}
+    t0 = time.time()
     # ---------------- 1. design checks
     asis = ['TypeOK', 'AsIsOneHost', 'AsIsAuth', 'AsIsCookie', 'AsIsReferer', 'BoundOK', 'RedirectBound']
     full = ['TypeOK', 'OneHostOK', 'AuthOK', 'CookieOK', 'RefererOK', 'BoundOK', 'RedirectBound']
     dc = (['h1', 'h2'], ['a'], ['http', 'https'], ['def'], 1, 3) if quick else \
          (['h1', 'h2'], ['a'], ['http', 'https'], ['def', 'alt'], 2, 4)
+    pool = ThreadPoolExecutor(max_workers=5)
+    dfut = []
     for name, fix, invs in (('as-is', 'FALSE', asis), ('repaired', 'TRUE', full)):
         c = consts(*dc, fix, (200, 302, 307, 401) if quick else (200, 301, 302, 303, 307, 308, 401, 500))
-        res = tlc.run_tlc('WebSession', design_cfg(c, invs), workers=4 if quick else 8, coverage=True,
-                          timeout=1500, heap='6g')
-        chk.design('WebSession[%s,MaxRed=%d,MaxHops=%d]' % (name, dc[4], dc[5]), res,
+        dfut.append((name, fix, invs, pool.submit(tlc.run_tlc, 'WebSession', design_cfg(c, invs), workers=2 if quick else 4,
+                                                  coverage=True, timeout=2400, heap='5g')))
+    # ---------------- 2. TLC-generated server strategies (spec -> code)
+    gfut = []
+    # exhaustive: every server strategy for visits of <= 2 requests over the small alphabet
+    c = consts(['h1', 'h2'], ['a'], ['http'], ['def'], 1, 2, FIX_COPY, (200, 302, 307, 401))
+    gfut.append(('exhaustive-small', 1, pool.submit(gen, c, refs=('none',))))
+    if not quick:
+        c = consts(['h1', 'h2'], ['a'], ['http', 'https'], ['def'], 2, 2, FIX_COPY, (200, 308))
+        gfut.append(('exhaustive-schemes', 2, pool.submit(gen, c, timeout=1200)))
+    # simulation, full alphabet, longer chains
+    for (mr, hops, num) in ((2, 4, 1200 if quick else 12000), (3, 5, 500 if quick else 8000)):
+        c = consts(['h1', 'h2', 'h3'], ['a', 'b'], ['http', 'https'], ['def', 'alt'], mr, hops, FIX_COPY)
+        gfut.append(('simulate', mr, pool.submit(gen, c, start_hosts=('h1', 'h2', 'h3'), simulate=num,
+                                                 seed=chk.seed + 7 + mr, depth=2 * hops + 2)))
+    for name, fix, invs, f in dfut:
+        chk.design('WebSession[%s,MaxRed=%d,MaxHops=%d]' % (name, dc[4], dc[5]), f.result(),
                    constants=dict(Hosts=dc[0], Paths=dc[1], Schemes=dc[2], PortsC=dc[3], MaxRed=dc[4], MaxHops=dc[5],
                                   FixCopy=fix, invariants=invs),
                    expect_actions=['Start', 'Respond'])
-    # ---------------- 2. TLC-generated server strategies
+    tm['design'] = round(time.time() - t0, 1); t0 = time.time()
     scripts = []    # (origin, maxred, tlc script)
-    # exhaustive, small alphabet: one scheme, default ports, two redirect classes
-    c = consts(['h1', 'h2'], ['a', 'b'], ['http'], ['def'], 1, 3, FIX_COPY, (200, 302, 307, 401))
-    g, res = gen(c)
-    chk.states += res['distinct']
-    chk.transitions += res['states']
-    scripts += [('exhaustive-small', 1, s) for s in g]
-    chk.extra['gen_exhaustive_small'] = {'scripts': len(g), 'states': res['distinct']}
-    if not quick:
-        c = consts(['h1', 'h2'], ['a'], ['http', 'https'], ['def', 'alt'], 2, 3, FIX_COPY, (200, 301, 308, 401))
-        g, res = gen(c, timeout=1200)
-        chk.states += res['distinct']
-        chk.transitions += res['states']
-        scripts += [('exhaustive-schemes-ports', 2, s) for s in g]
-        chk.extra['gen_exhaustive_schemes_ports'] = {'scripts': len(g), 'states': res['distinct']}
-    # simulation, full alphabet, longer chains
-    for (mr, hops, num) in ((2, 4, 1500 if quick else 12000), (3, 5, 500 if quick else 8000)):
-        c = consts(['h1', 'h2', 'h3'], ['a', 'b'], ['http', 'https'], ['def', 'alt'], mr, hops, FIX_COPY)
-        g, res = gen(c, simulate=num, seed=chk.seed + 7 + mr, depth=2 * hops + 2)
-        scripts += [('simulate', mr, s) for s in g]
+    for origin, mr, f in gfut:
+        g, res = f.result()
+        if origin != 'simulate':
+            chk.states += res['distinct']
+            chk.transitions += res['states']
+            chk.extra['gen_' + origin.replace('-', '_')] = {'scripts': len(g), 'states': res['distinct']}
+        scripts += [(origin, mr, s) for s in g]
+    pool.shutdown()
     chk.extra['tlc_generated_scripts'] = len(scripts)
-    if quick and len(scripts) > 6000:
+    if quick and len(scripts) > 3200:
         keep = [s for s in scripts if s[0] != 'exhaustive-small']
         small = [s for s in scripts if s[0] == 'exhaustive-small']
         rng.shuffle(small)
-        scripts = keep + small[:6000 - len(keep)]
+        scripts = keep + small[:3200 - len(keep)]
         chk.extra['exhaustive_small_sampled'] = True
+    tm['gen'] = round(time.time() - t0, 1); t0 = time.time()
     runs = []     # (origin, script, trace)
     for origin, mr, g in scripts:
         for rel, proxy in ((False, False), (True, False), (False, True)):
@@ -240,14 +270,18 @@ def run(chk):
                 continue
             ev, outcome = X.run_script(sc)
             runs.append((origin + ('/rel' if rel else '') + ('/proxy' if proxy else ''), sc, trace_of(sc, ev)))
+    tm['exec'] = round(time.time() - t0, 1); t0 = time.time()
     # ---------------- URL-text dimension
     text_runs = TX.run_text_cases(chk, quick)
+    tm['text'] = round(time.time() - t0, 1); t0 = time.time()
     # ---------------- 3. validation
     traces = [t for (_, _, t) in runs]
     mv, sv, stats = validate(traces)
     tmv, _, tstats = validate([t for (_, _, t) in text_runs], strict=False)
     for st in stats + tstats:
         chk.trace_stats(st)
+    tm['validate'] = round(time.time() - t0, 1)
+    chk.extra['phase_wall_s'] = tm
     ndrift = 0
     for (origin, sc, t), m, s in list(zip(runs, mv, sv)) + [(r, m, None) for r, m in zip(text_runs, tmv)]:
         chk.case(key=json.dumps(sc, sort_keys=True))
@@ -257,14 +291,16 @@ def run(chk):
         if m['matched'] < m['len']:
             raise tlc.TLCError('monitor did not consume a trace: %r' % (m,))
         if m['bad']:
-            i, e = bad_send(t, m['badline'])
             for clause in clauses_of(m['bad']):
+                i, e = bad_send(t, m['badline'], [k for k in CLAUSES if CLAUSES[k] == clause][0])
                 sig = {'clause': clause}
-                if origin.startswith('text'):
+                if origin.startswith('text') and clause in ('TargetOK', 'WellFormed', 'Delivered', 'EndsOK'):
                     sig['input'] = sc.get('text_class', 'text')
                 if clause in ('OneHostOK', 'AuthOK', 'CookieOK', 'RefererOK', 'TargetOK', 'Delivered', 'WellFormed'):
                     # classify by how the offending request was made (first offending request of the trace)
                     sig['request'] = how_made(t, i) if i is not None else '?'
+                if clause == 'TargetOK' and e is not None and e.get('proxied'):
+                    sig['proxied'] = True
                 if clause == 'WellFormed' and e is not None:
                     sig['why'] = e.get('why', '')
                 if clause == 'EndsOK':
